@@ -5,6 +5,15 @@ From Kenlm Require Import Gen.BinaryFormatConsts C15.IoModel C15.IoProofs C09.Cr
 Import ListNotations.
 
 Ltac inv H := inversion H; subst; clear H.
+(* H : (if c then None else X) = Some v  -->  E : c = false, H : X = Some v *)
+Ltac peel H :=
+  match type of H with
+  | (if ?c then None else ?X) = Some ?v => destruct c eqn:E; [discriminate H|change (X = Some v) in H]
+  end.
+Ltac branch H :=
+  match type of H with
+  | (if ?c then ?A else ?B) = Some ?v => destruct c; [change (A = Some v) in H|change (B = Some v) in H]
+  end.
 
 (* ------------------------------------------------------------------------------------------ *)
 (* lists *)
@@ -169,21 +178,16 @@ Section Loader.
                   (snd v = None \/ snd v = Some (skipn total img)).
   Proof.
     intros cfg img v H. unfold CrashModel.load in H.
-    destruct (length img <=? sanity_size) eqn:E0; [discriminate|]. apply Nat.leb_gt in E0.
-    destruct (list_eqb (firstn sanity_size img) ref_sanity) eqn:E1; [|discriminate]. apply list_eqb_eq in E1.
-    split; [exact E0|]. split; [exact E1|]. simpl negb in H. cbv iota in H.
-    repeat match type of H with
-           | (if ?c then None else _) = Some _ => destruct c; [discriminate|]
-           | (let _ := _ in _) = Some _ => cbv zeta in H
-           end.
+    peel H. rename E into E0. apply Nat.leb_gt in E0.
+    peel H. rename E into E1. apply negb_false_iff in E1. apply list_eqb_eq in E1.
+    split; [exact E0|]. split; [exact E1|].
+    do 7 (cbv zeta in H; peel H; clear E). cbv zeta in H.
     match type of H with
-    | context [length img <? ?t] => set (total := t) in *
+    | (if length img <? ?t then None else _) = Some _ => set (total := t) in *
     end.
-    destruct (length img <? total) eqn:E2; [discriminate|]. apply Nat.ltb_ge in E2.
-    exists total. split; [exact E2|].
-    repeat match type of H with
-           | (if ?c then _ else _) = Some _ => destruct c; try discriminate
-           end; inv H; simpl; auto.
+    peel H. apply Nat.ltb_ge in E.
+    exists total. split; [exact E|].
+    repeat branch H; try discriminate H; inv H; simpl; auto.
   Qed.
 
   Definition reads_agree (F : list byte) (v : list byte * option (list byte)) : Prop :=
@@ -194,7 +198,7 @@ Section Loader.
   Proof.
     intros l m. revert l. induction m as [|m IH]; intros l n.
     - rewrite Nat.sub_0_r. reflexivity.
-    - destruct n as [|n]; [destruct l; reflexivity|]. destruct l as [|x l]; [destruct (n - m); reflexivity|].
+    - destruct n as [|n]; [destruct l; reflexivity|]. destruct l as [|x l]; [simpl; destruct (n - m); reflexivity|].
       simpl. apply IH.
   Qed.
 
@@ -333,16 +337,22 @@ Lemma body_safe : forall fixed wm iv c, sanity_size <= c_H c ->
 Proof.
   intros fixed wm iv c HH. pose proof dix_lt_sanity as Hd.
   assert (S0 : forall bs, safe_op (MapStore 0 (incomplete_header (c_H c))) /\ safe_op (Write 0 (incomplete_header (c_H c) ++ bs))).
-  { intro bs. split; simpl; right; right; rewrite Nat.sub_0_r.
+  { intro bs. split; unfold safe_op; right; right; rewrite Nat.sub_0_r.
     - apply incomplete_header_safe.
     - rewrite app_nth1 by (rewrite incomplete_header_length; lia). apply incomplete_header_safe. }
   assert (S1 : forall off bs, c_H c <= off -> safe_op (MapStore off bs) /\ safe_op (Write off bs)).
-  { intros off bs Ho. split; simpl; left; lia. }
-  apply Forall_app. split.
-  - destruct wm; unfold body_trace; destruct iv;
-      repeat (apply Forall_app; split); repeat constructor; simpl; auto;
-      try (apply (S0 [])); try (apply S0); try (left; lia).
-  - destruct wm, fixed; simpl; repeat constructor.
+  { intros off bs Ho. split; unfold safe_op; left; lia. }
+  assert (Hd' : dix < c_H c) by lia.
+  unfold body_trace, sync_trace.
+  destruct wm, iv, fixed; cbv beta iota zeta;
+    repeat first [apply Forall_nil | apply Forall_cons | (apply Forall_app; split)];
+    match goal with
+    | |- safe_op (MapStore 0 (incomplete_header _)) => apply (S0 [])
+    | |- safe_op (Write 0 (incomplete_header _ ++ _)) => apply S0
+    | |- safe_op (MapStore _ _) => unfold safe_op; left; lia
+    | |- safe_op (Write _ _) => unfold safe_op; left; lia
+    | |- safe_op _ => exact I
+    end.
 Qed.
 
 Lemma tail_quiet : forall wm c, Forall quiet_op (tail_trace wm c).
@@ -450,3 +460,21 @@ Proof.
   unfold finish_trace, finish_trace_gen, finish_shape, body_trace, sync_trace, header_op, tail_trace.
   destruct wm, iv; simpl; rewrite ?app_length, ?incomplete_header_length, ?H3, ?H4, ?H5; reflexivity.
 Qed.
+
+(* ------------------------------------------------------------------------------------------ *)
+(* the hypotheses are satisfiable and the loader is not trivially rejecting: a small complete build loads,
+   the same build cut before the header does not *)
+Definition ex_contents : contents :=
+  {| c_H := 128; c_vocab1 := repeat 7 8; c_vocab2 := repeat 7 8; c_search1 := repeat 9 16; c_search2 := repeat 9 16;
+     c_words := unk6 ++ [97; 0];
+     c_header := ref_sanity ++ [2; 0; 0; 0; 0; 0; 192; 63; 0; 0; 0; 0; 1; 0; 0; 0; 1; 0; 0; 0] ++ repeat 0 20 |}.
+Definition ex_cfg : loader_cfg := {| l_model_type := 0; l_search_version := 1; l_enumerate := true |}.
+Definition ex_load := load (fun _ => true) (fun _ _ => 24) (fun _ _ => true) ex_cfg.
+
+Example ex_wf : wf_contents ex_contents.
+Proof. unfold wf_contents. vm_compute. repeat split; lia. Qed.
+Example ex_final_loads : forall wm, exists body, ex_load (final_image wm true ex_contents) = Some (body, Some (unk6 ++ [97; 0])) /\ length body = 152.
+Proof. intros []; eexists; vm_compute; split; reflexivity. Qed.
+Example ex_before_header_rejected :
+  ex_load (crash_image (run empty_file (body_trace WriteMmap true ex_contents ++ sync_trace true WriteMmap)) (fun _ => true) 1000) = None.
+Proof. vm_compute. reflexivity. Qed.
